@@ -7,6 +7,7 @@ import (
 	"math"
 	"os"
 	"path/filepath"
+	"reflect"
 	"strconv"
 	"strings"
 	"unicode"
@@ -317,7 +318,82 @@ func main() {
 			env := defaultEnv()
 			dataEnv(env)
 			var src, want, tag string
+			var root any
+			hasRoot := false
 			switch c := r.Intn(100); {
+			case c < 6: // the WHOLE data is a Go value that is not a map: its fields and methods are the top-level names (C06, C13)
+				hasRoot = true
+				root = []any{&T4{N: 3}, T4{N: 5}, &T1{Name: "Bob", Age: 41, Tags: []string{"x"}}, T1{Name: "Ann", Age: 30, Inner: &T2{X: 4}},
+					(*T1)(nil), T3{T2{X: 6}, 7}, &T3{T2{X: 8}, 9}, &T2{X: 2}, map[string]any{"Name": "m", "len": int64(5)}, nil}[r.Intn(10)]
+				name := r.Pick([]string{"N", "Next", "Self", "Name", "Age", "Tags", "Inner", "Hello", "PtrM", "GetX", "X", "Y", "hidden", "nosuch", "len", "true", "string", "M"})
+				if root != nil && r.Chance(70) { // mostly a name the value's type knows: its fields, its methods and those of its pointer type
+					var own []string
+					rt := reflect.TypeOf(root)
+					for k := 0; k < rt.NumMethod(); k++ {
+						own = append(own, rt.Method(k).Name)
+					}
+					if rt.Kind() == reflect.Pointer {
+						rt = rt.Elem()
+					} else {
+						for k := 0; k < reflect.PointerTo(rt).NumMethod(); k++ {
+							own = append(own, reflect.PointerTo(rt).Method(k).Name)
+						}
+					}
+					if rt.Kind() == reflect.Struct {
+						for k := 0; k < rt.NumField(); k++ {
+							if f := rt.Field(k); !f.Anonymous { // the encoding of values flattens embedded structs: their own name is not modelled
+								own = append(own, f.Name)
+							} else if f.Type.Kind() == reflect.Struct {
+								for q := 0; q < f.Type.NumField(); q++ {
+									own = append(own, f.Type.Field(q).Name)
+								}
+							}
+						}
+					}
+					if len(own) > 0 {
+						name = own[r.Intn(len(own))]
+					}
+				}
+				src = name
+				tag = "root"
+				v, class := nativeField(root, name)
+				isFunc := class == "" && v != nil && reflect.ValueOf(v).Kind() == reflect.Func
+				switch r.Intn(4) {
+				case 0:
+					if isFunc && reflect.TypeOf(v).NumIn() == 0 {
+						src = name + "()"
+						func() {
+							defer func() { // a value method called through a nil pointer panics in Go: the evaluator must answer with an error
+								if recover() != nil {
+									class = "err"
+								}
+							}()
+							v = reflect.ValueOf(v).Call(nil)[0].Interface()
+						}()
+					}
+				case 1:
+					if name == "Inner" && class == "" && v != nil && !reflect.ValueOf(v).IsNil() {
+						src = "Inner.X"
+						v = v.(*T2).X
+					} else if name == "Tags" && class == "" {
+						src = "len(Tags)"
+						v = reflect.ValueOf(v).Len() // len() answers a Go int
+					}
+				}
+				switch {
+				case class == "":
+					want = "OK " + encResult(newValEnc(), v) + " LOG "
+				case class == "nosuch" && name == "true":
+					want = "OK " + encResult(newValEnc(), true) + " LOG "
+				case class == "nosuch" && (name == "len" || name == "string"):
+					want = "OK F LOG "
+				case class == "nosuch":
+					want = "ERR nosuch LOG "
+				case src != name:
+					want = "ERR err LOG "
+				default:
+					want = "" // an unexported field: the correspondence with the model decides
+				}
 			case c < 45: // operators (C09, C11)
 				g := &exGen{r: r, env: env, newlines: r.Chance(20)}
 				e := g.Gen("?", 1+r.Intn(6))
@@ -352,9 +428,14 @@ func main() {
 				}
 			}
 			out.count(tag)
-			res := implEval(src, env)
+			res := ""
+			if hasRoot {
+				res = implEvalRoot(src, root)
+			} else {
+				res = implEval(src, env)
+			}
 			why := ""
-			if res != want {
+			if res != want && !(hasRoot && want == "") {
 				// NaN results and -0 are compared by bits after canonicalisation; anything else is a failure
 				why = fmt.Sprintf("expression %q: implementation %s, reference %s", src, res, want)
 			}
@@ -375,6 +456,11 @@ func main() {
 				}
 			default:
 				c13 = why
+			}
+			if hasRoot {
+				out.put(fmt.Sprintf("eval %s %s %s", meth, newValEnc().enc(root), encStr(src)), res,
+					verdict("C06", why), verdict("C13", why), verdict("C08", panicOnly(res)))
+				continue
 			}
 			out.put(fmt.Sprintf("eval %s %s %s", meth, encEnv(env), encStr(src)), res,
 				verdict("C09", c09), verdict("C11", c11), verdict("C12", c12), verdict("C13", c13), verdict("C08", panicOnly(res)))
